@@ -72,3 +72,20 @@ def test_bits():
 
 if __name__ == "__main__":
     test_bits()
+
+
+def test_signed_and_linkage():
+    from rtcpverif.lin import INT_MIN, INT_MAX
+    o = Lin.atom(("sym", "offset", "usize"))
+    # offset % 4 != 0  ==>  offset < pad4(offset) = 4*((offset+3) div 4)   (needs the implied equality after substitution)
+    assert entails([ne(MOD(o, 4), 0)], flit(le(o + 1, DIV(o + 3, 4).scale(4))))
+    assert not entails([], flit(le(o + 1, DIV(o + 3, 4).scale(4))))
+    # signed atoms range over negative values
+    x = Lin.atom(("opq", "x", "i16"))
+    assert entails([], f_and(flit(ge(x, -32768)), flit(le(x, 32767))))
+    assert not entails([], flit(ge(x, 0)))
+    print("signed/linkage tests ok")
+
+
+if __name__ == "__main__":
+    test_signed_and_linkage()
